@@ -29,7 +29,10 @@ type prop struct {
 var props = map[string]*prop{}
 
 func main() {
-	flag.Set("logtostderr", "true")
+	// glog: nothing on stderr, files (if any) into the per-run temp dir, never /tmp
+	flag.Set("log_dir", os.TempDir())
+	flag.Set("stderrthreshold", "FATAL")
+	flag.CommandLine.Parse(nil)
 	log.SetOutput(io.Discard)
 	if len(os.Args) < 2 {
 		usage()
